@@ -73,6 +73,23 @@ def position_slices(o, key, positions, tag="@"):
     return out
 
 
+def rerun_sets(o, labels, max_size):
+    """One worker per explicit rerun request set (subsets of the given task/route labels up to
+    max_size); the request bits are fixed per worker, everything else stays symbolic."""
+    import itertools
+
+    out = []
+    for k in range(0, max_size + 1):
+        for sub in itertools.combinations(labels, k):
+            d = dict(o)
+            d["id"] = "%s@%s" % (o["id"], "+".join(x.split("/")[0] for x in sub) or "default")
+            d["fixed"] = dict(o.get("fixed") or {})
+            for lab in labels:
+                d["fixed"]["rr:" + lab] = lab in sub
+            out.append(d)
+    return out
+
+
 def ob(prop, name, body, params, timeout=300, fixed=None, kind="e2c"):
     return {
         "id": "%s.%s" % (prop, name),
